@@ -188,8 +188,8 @@ def plan(tier):
             jobs.append(fact_job(PROP, kname, 'rep_%s_%s' % (op, tag), 1, 'result rep is the promoted common type %s' % Res.name))
             jobs.append(Job('%s.L3.operator.%s.%s' % (PROP, op, tag), kname, P_L3, c_rel(0), replace=REPL_L3, layer=3, **common))
             jobs.append(Job('%s.L2.wrapper_op.%s.%s' % (PROP, op, tag), kname, P_L2, c_rel(1), replace=REPL_L2, layer=2, **common))
-            if el != er and op != 'multiply':
-                jobs.append(Job('%s.L1.aligned_op.%s.%s' % (PROP, op, tag), kname, P_L1, c_rel(1), replace=REPL_L1, layer=1, **common))
+            # exists on the pinned tree only for el != er and zero-degree operators; optional so that a body appearing elsewhere is proved, not assumed
+            jobs.append(Job('%s.L1.aligned_op.%s.%s' % (PROP, op, tag), kname, P_L1, c_rel(1), replace=REPL_L1, layer=1, optional=True, **common))
     k = Kernel(kname, ''.join(src), [], 'scaled_integer operators')
     # leaf jobs: every default_scale / plain operator instantiation present in the kernel gets its own proof
     jobs.append(('LEAVES', kname, P_SCALE, c_scale, 'L0.default_scale'))
